@@ -932,6 +932,36 @@ class FnTranslator:
         body = self.hoist_decls(self.block(s.body, '      '), '      ')
         self.loop_exit.pop()
         self.muts = saved_muts
+        if getattr(self.unit, 'split_body', False) and not returns:
+            # the loop body as a function of its own: Sum.inl = the loop is left (break), Sum.inr = next round
+            blines = [f'def {aux_name}.body {fparams} {sparams} : Except Err (Sum {tupty} {tupty}) := do']
+            for n in state:
+                blines.append(f'    let mut {n} := {n}')
+            for b in body:
+                # a `break` was rendered as `return <state>`: it leaves the loop
+                blines.append(b[2:].replace(f'return {tup}', f'return Sum.inl {tup}') if b.strip() == f'return {tup}' else b[2:])
+            blines.append(f'    return Sum.inr {tup}')
+            self.aux.append('\n'.join(blines))
+            pat = ', '.join(state)
+            lines = [f'def {aux_name} {fparams} : Nat → {" → ".join(stypes)} → Except Err {tupty}']
+            lines.append(f'  | 0, {pat} => if {c} then throw Err.Hang else pure {tup}')
+            lines.append(f'  | fuel + 1, {pat} =>')
+            lines.append(f'    if {c} then')
+            lines.append(f'      match {aux_name}.body {fargs} {" ".join(state)} with')
+            lines.append(f'      | .error e => .error e')
+            lines.append(f'      | .ok (Sum.inl st) => pure st')
+            projs = []
+            for i, n in enumerate(state):
+                projs.append('st' + ''.join(['.2'] * i) + ('.1' if i < len(state) - 1 else '') if len(state) > 1 else 'st')
+            lines.append(f'      | .ok (Sum.inr st) => {aux_name} {fargs} fuel {" ".join(projs)}')
+            lines.append(f'    else pure {tup}')
+            self.aux.append('\n'.join(lines))
+            out = []
+            call = f'{aux_name} {fargs} ({fuel}) {" ".join(state)}'
+            out.append(f'{ind}let st ← {call}')
+            for n, pr in zip(state, projs):
+                out.append(f'{ind}{n} := {pr}')
+            return out
         lines = [f'def {aux_name} {fparams} : Nat → {" → ".join(stypes)} → Except Err {resty}']
         pat = ', '.join(state)
         done = f'pure (Sum.inr {tup})' if returns else f'pure {tup}'
@@ -1245,6 +1275,7 @@ def units():
     u.ext = True
     u.consts = {'debug': False}
     u.hoist = True
+    u.split_body = True
     u.local_types = {'track': LIST(EXTMSG), 'last_status': OPT_INT}
     U.append(u)
     U.append(Unit(M, 'check_int', [('value', INT), ('low', INT), ('high', INT)], NONE))
